@@ -3,7 +3,7 @@ import copy
 import math
 import random
 
-from . import core, worldgen as wg
+from . import core, worldgen as wg, ridgeref
 from .common import world, ok, vals, q3, margin_pass, block_delta, TOL
 
 PID = 'C08'
@@ -91,6 +91,214 @@ def lon_range(doc):
     return (min(lons), max(lons)) if lons else (0.0, 0.0)
 
 
+def alias_mechanism(doc, ctx, p, off):
+    """is the known one-alias defect of the ridge kernel at work for surface position p (degrees) of the spherical world doc when
+    the world is moved by the longitude offset off? Decided with the independent reference (vlib/ridgeref.py): for a ridge model
+    of the world, the foot chosen under the library's one-alias rule for p in W and for p+off in g(W) are different points of the
+    ridge. Oceanic plates measure from p itself; a mass conserving slab measures from the trench foot of p, which is bracketed here by
+    the part of the trench polyline nearest to p."""
+    d2r = PI / 180.0
+
+    def wrap(x):
+        return ((x + 180.0) % 360.0) - 180.0
+
+    def differs(ridges, q):
+        rad = [[(a * d2r, b * d2r) for (a, b) in r] for r in ridges]
+        grad = [[((a + off) * d2r, b * d2r) for (a, b) in r] for r in ridges]
+        vel = [[1.0 for _ in r] for r in ridges]
+        b0, _ = ridgeref.best(ridgeref.candidates(rad, vel, [[1.0]], (wrap(q[0]) * d2r, q[1] * d2r), True, ctx.R))
+        b1, _ = ridgeref.best(ridgeref.candidates(grad, vel, [[1.0]], (wrap(q[0] + off) * d2r, q[1] * d2r), True, ctx.R))
+        if b0['ridge'] != b1['ridge']:
+            return True
+        return abs(b0['distance'] - b1['distance']) > 1e-7 * max(b0['distance'], 1.0) + 1e-3
+    for f in doc['features']:
+        models = list(f.get('temperature models', []))
+        for sec in f.get('sections', []) or []:
+            models += sec.get('temperature models', [])
+            for sg in sec.get('segments', []) or []:
+                models += sg.get('temperature models', [])
+        for sg in f.get('segments', []) or []:
+            models += sg.get('temperature models', [])
+        for m in models:
+            if 'ridge coordinates' not in m:
+                continue
+            if f['model'] == 'subducting plate':
+                tr = f['coordinates']
+                samples = []
+                for a, b in zip(tr[:-1], tr[1:]):
+                    for k in range(41):
+                        samples.append((a[0] + (b[0] - a[0]) * k / 40.0, a[1] + (b[1] - a[1]) * k / 40.0))
+
+                def dist(q):
+                    dl = ((q[0] - p[0] + 180.0) % 360.0) - 180.0
+                    return math.hypot(dl * math.cos(p[1] * d2r), q[1] - p[1])
+                dmin = min(dist(q) for q in samples)
+                near = [q for q in samples if dist(q) <= 1.5 * dmin + 0.5]
+                if any(differs(m['ridge coordinates'], q) for q in near):
+                    return True
+            else:
+                if differs(m['ridge coordinates'], p):
+                    return True
+    return False
+
+
+SEC_YEAR = 60.0 * 60.0 * 24.0 * 365.25
+
+
+def ridge_kernel_family(V, rng, tier):
+    """the ridge kernel called directly (wbmon `ridge`): random ridge systems (1-3 ridges joined by oblique transforms, 2-4 points,
+    per point velocities, one subducting velocity that differs from the spreading velocities or an array) and points around them,
+    incl. beyond the ridge ends. Judged (a) against vlib/ridgeref.py, the stated construction incl. the library's one-alias rule,
+    (b) for invariance under a common longitude offset / a rigid motion: a difference the one-alias rule explains (the reference
+    itself picks another foot) is the known finding, anything else a violation."""
+    n = 40 if tier == 'quick' else 1200
+    jobs = []
+    for i in range(n):
+        sph = rng.random() < 0.7
+        R = 6371000.0
+        doc = {'version': '1.1', 'features': []}
+        if sph:
+            doc['coordinate system'] = {'model': 'spherical', 'depth method': 'starting point'}
+        fn = 'k%d.wb' % i
+        c = core.Case('k%d' % i, files={fn: wg.dumps(doc)})
+        world(c, 1, core.workfile(PID + '_kernel', fn))
+        if sph:
+            cx = rng.choice([-1, 1]) * rng.uniform(150, 180) if rng.random() < 0.6 else rng.uniform(-150, 150)
+            cy = rng.uniform(-60, 60)
+            u = 1.0
+        else:
+            cx, cy, u = rng.uniform(-1e6, 1e6), rng.uniform(-1e6, 1e6), 1e5
+        nr = rng.choice([1, 1, 2, 3])
+        ridges = []
+        y = cy - u * rng.uniform(4, 12)
+        x = cx + u * rng.uniform(-3, 3)
+        for k in range(nr):
+            pts = []
+            for j in range(rng.choice([2, 2, 3, 4])):
+                pts.append((wg.R(x), wg.R(y)))
+                y += u * rng.uniform(1.5, 6)
+                x += u * rng.uniform(-3, 3)
+            ridges.append(pts)
+            # the transform to the next ridge: oblique
+            x += u * rng.uniform(-6, 6)
+            y += u * rng.uniform(-1.0, 1.0)
+        vel = [[wg.R(rng.uniform(0.01, 0.12)) for _ in r] for r in ridges]
+        if rng.random() < 0.7:
+            sub = [[wg.R(rng.uniform(0.01, 0.12))]]
+        else:
+            sub = [list(v) for v in vel]
+            if all(len(v) == 1 for v in sub):
+                sub = [[sub[0][0]]]
+        points = []
+        for k in range(40):
+            r0 = rng.choice(ridges)
+            a = rng.choice(r0)
+            points.append((a[0] + u * rng.uniform(-25, 25), a[1] + u * rng.uniform(-12, 12)))
+        motions = []
+        for m in range(2):
+            if sph:
+                lons = [p[0] for r in ridges for p in r]
+                omin, omax = -360.0 - min(lons), 360.0 - max(lons)
+                off = wg.R(round(rng.uniform(omin, omax) * 8) / 8.0)
+                if not (omin <= off <= omax):
+                    continue
+                motions.append(('longitude', off, (lambda x, y, off=off: (x + off, y))))
+            else:
+                ang = rng.uniform(0, 360)
+                ca, sa = math.cos(math.radians(ang)), math.sin(math.radians(ang))
+                tx, ty = rng.uniform(-1e7, 1e7), rng.uniform(-1e7, 1e7)
+                motions.append(('rigid', ang, (lambda x, y, ca=ca, sa=sa, tx=tx, ty=ty, cx=cx, cy=cy: (cx + tx + ca * (x - cx) - sa * (y - cy), cy + ty + sa * (x - cx) + ca * (y - cy)))))
+        d2r = PI / 180.0 if sph else 1.0
+
+        def wrap(x):
+            return ((x + 180.0) % 360.0) - 180.0 if sph else x
+
+        def spec(rr):
+            return '|'.join(';'.join('%s,%s' % (core.hx(px * d2r), core.hx(py * d2r)) for (px, py) in r) for r in rr)
+
+        def lst(ll):
+            return '|'.join(';'.join(core.hx(v) for v in l) for l in ll)
+        plan = []
+        for (px, py) in points:
+            if sph and not (-89.0 < py < 89.0):
+                continue
+            px = wrap(px)
+            i0 = c.add('ridge', 1, core.hx(R if sph else 0.0), core.hx(px * d2r), core.hx(py * d2r), spec(ridges), lst(vel), lst(sub))
+            moved = []
+            for (kind, par, g) in motions:
+                gr = [[(R15(g(a, b)[0]), R15(g(a, b)[1])) for (a, b) in r] for r in ridges]
+                gx, gy = g(px, py)
+                gx = wrap(gx)
+                ig = c.add('ridge', 1, core.hx(R if sph else 0.0), core.hx(gx * d2r), core.hx(gy * d2r), spec(gr), lst(vel), lst(sub))
+                moved.append((kind, par, gr, (gx, gy), ig))
+            plan.append(((px, py), i0, moved))
+        jobs.append((c, sph, R, ridges, vel, sub, plan, d2r))
+    core.run_cases('asan', [j[0] for j in jobs], PID + '_kernel')
+    nkernel = 0
+    for (c, sph, R, ridges, vel, sub, plan, d2r) in jobs:
+        if c.crash:
+            V.crash(c, 'ridge kernel')
+        csn = 'spherical' if sph else 'cartesian'
+
+        def judge(rr, p, res, what):
+            """library answer against the stated construction; returns (library values, reference winner)"""
+            if not ok(res):
+                V.violation('ridge-kernel:throws:%s' % csn, {'ridges': rr, 'point': p, 'res': res})
+                return None, None
+            lv = vals(res)
+            rad = [[(a * d2r, b * d2r) for (a, b) in r] for r in rr]
+            cands = ridgeref.candidates(rad, vel, sub, (p[0] * d2r, p[1] * d2r), sph, R)
+            b, runner = ridgeref.best(cands)
+            scale = max(b['distance'], 1.0)
+            theta = b['distance'] / R if sph else 1.0
+            tol = 1e-9 * scale + (1e-15 / max(theta, 1e-9) ** 2 * scale if sph else 0.0) + 1e-6
+            tie = abs(runner - b['distance']) <= 10 * tol
+            if abs(lv[1] - b['distance']) > tol and not tie:
+                V.violation('ridge-kernel:distance-differs-from-the-stated-construction:%s' % csn,
+                            {'ridges': rr, 'velocities': vel, 'subducting': sub, 'point': p, 'library': lv, 'reference': b, 'what': what})
+            elif not tie:
+                for k, name in ((0, 'spreading'), (2, 'subducting')):
+                    if abs(lv[k] * SEC_YEAR - b[name]) > 1e-9 * max(abs(b[name]), 1e-3):
+                        V.violation('ridge-kernel:%s-velocity-is-not-the-interpolated-value-at-the-foot:%s' % (name, csn),
+                                    {'ridges': rr, 'velocities': vel, 'subducting': sub, 'point': p, 'library': [lv[0] * SEC_YEAR, lv[1], lv[2] * SEC_YEAR],
+                                     'reference': b, 'what': what})
+            return lv, (b, tie)
+        for (p, i0, moved) in plan:
+            r0 = c.results[i0]
+            if r0[0] == 'missing':
+                continue
+            V.count()
+            nkernel += 1
+            l0, b0 = judge(ridges, p, r0, 'W')
+            for (kind, par, gr, gp, ig) in moved:
+                rg = c.results[ig]
+                if rg[0] == 'missing':
+                    continue
+                V.count()
+                lg, bg = judge(gr, gp, rg, 'g(W)')
+                if l0 is None or lg is None:
+                    continue
+                V.nontrivial(('kernel', c.cid, p, par))
+                dd = abs(l0[1] - lg[1])
+                scale = max(l0[1], 1.0)
+                same = dd <= 1e-7 * scale + 1e-3
+                vsame = all(abs(l0[k] - lg[k]) <= 1e-9 * max(abs(l0[k]), 1e-12) + (1e-7 * abs(l0[k]) if not same else 0.0) for k in (0, 2))
+                if same and vsame:
+                    continue
+                if b0[1] or bg[1]:
+                    continue    # a tie between two feet in one of the two worlds
+                # do the references (stated construction + one-alias rule) of the two worlds pick different feet?
+                ref_differs = abs(b0[0]['distance'] - bg[0]['distance']) > 1e-7 * scale + 1e-3 or \
+                    any(abs(b0[0][nm] - bg[0][nm]) > 1e-9 for nm in ('spreading', 'subducting'))
+                detail = {'ridges': ridges, 'moved_ridges': gr, 'velocities': vel, 'subducting': sub, 'point': p, 'moved_point': gp, 'motion': (kind, par),
+                          'W': [l0[0] * SEC_YEAR, l0[1], l0[2] * SEC_YEAR], 'gW': [lg[0] * SEC_YEAR, lg[1], lg[2] * SEC_YEAR]}
+                if sph and ref_differs:
+                    V.violation('ridge-kernel:longitude:foot-depends-on-which-360-alias-of-the-point-exists', detail)
+                else:
+                    V.violation('ridge-kernel:%s:answer-changes-under-the-motion' % kind, detail)
+    V.coverage['ridge_kernel_calls'] = nkernel
+
+
 def main(tier, seed, replay):
     core.build('asan')
     rng = random.Random(seed * 86243 + 8)
@@ -100,10 +308,23 @@ def main(tier, seed, replay):
                           'the date line (incl. +-360); queries p on W and g(p) on g(W); temperature 1e-6 K, compositions/grains 1e-9, tag names equal, after the margin rule; '
                           'non-trivial = points inside >= 1 feature under a rotation that is not a multiple of 90 degrees or an offset that moves a footprint across the date line')
     nworlds = 150 if tier == 'quick' else 4500
+    nridge = 60 if tier == 'quick' else 1800
     jobs = []
-    for i in range(nworlds):
+    for i in range(nworlds + nridge):
         wrng = random.Random(rng.getrandbits(48))
-        w = wg.gen_world(wrng, {'nfeatures': (1, 4), 'force_surface': False, 'cross_section': wrng.random() < 0.3, 'ncomp': NCOMP, 'p_grains': 0.4, 'p_velocity': 0.2, 'max_bend': 40.0})
+        if i < nworlds:
+            w = wg.gen_world(wrng, {'nfeatures': (1, 4), 'force_surface': False, 'cross_section': wrng.random() < 0.3, 'ncomp': NCOMP, 'p_grains': 0.4, 'p_velocity': 0.2, 'max_bend': 40.0})
+        else:
+            # the ridge family: cooling models that measure the distance to a ridge (oceanic half space / plate model, slab mass
+            # conserving), with ridges shorter than the footprint (feet clamped to a ridge end) and oblique, mostly spherical and
+            # half of those at the date line, so that a longitude offset changes which +-360 alias of the point finds the foot
+            wg.EXTRA['short_ridges'] = 0.7
+            try:
+                w = wg.gen_world(wrng, {'nfeatures': (1, 2), 'types': ['oceanic plate', 'subducting plate'], 'force_surface': False, 'cross_section': False, 'ncomp': NCOMP,
+                                        'spherical': wrng.random() < 0.75, 'dateline': wrng.random() < 0.5, 'p_temperature': 1.0, 'p_grains': 0.0, 'p_velocity': 0.0,
+                                        'allow_temperature': ['half space model', 'plate model', 'mass conserving'], 'max_bend': 30.0})
+            finally:
+                wg.EXTRA['short_ridges'] = 0.0
         doc = w['json']
         ctx = w['truth']['ctx']
         # plume azimuths that differ by exactly 180 degrees between two cross sections are an interpolation tie (both ways
@@ -228,15 +449,17 @@ def main(tier, seed, replay):
                     if delta > tol:
                         name = {1: 'temperature', 2: 'composition', 3: 'grains'}[pr[0]]
                         key = '%s-differs:%s' % (name, mo['kind'])
-                        if pr[0] == 1 and ctx.sph and delta <= 5.0 and has_ridge(doc):
-                            # the foot of a point on a ridge is found in the lon/lat plane for the point and for its +-360 alias and the
-                            # nearer of the two feet (great circle distance) wins: which alias exists depends on the sign of the longitude
-                            key = 'temperature-differs:longitude:ridge-distance-depends-on-the-sign-of-the-longitude(<=5K)'
+                        if pr[0] == 1 and ctx.sph and has_ridge(doc) and alias_mechanism(doc, ctx, p, mo['offset']):
+                            # the foot of a point on a ridge is found in the lon/lat plane for the point and for ONE +-360 alias and the
+                            # nearer of the two feet (great circle distance) wins: which alias exists depends on the sign of the longitude.
+                            # Recognised by its mechanism (the independent reference picks different feet in W and g(W)), not by its size.
+                            key = 'temperature-differs:longitude:ridge-foot-depends-on-which-360-alias-of-the-point-exists'
                         pending.append({'key': key, 'detail': dict(detail, property=pr, delta=delta, blocks=(ba, bb)),
                                         'item': {'world': core.workfile(PID, fn), 'ctx': ctx, 'pt': p, 'prop': pr, 'delta': delta}})
                 if inside and mo['nontrivial']:
                     V.nontrivial((fn, gfn, p))
         V.sample({'world': fn, 'motions': [{k: v for k, v in m[0].items() if k != 'g'} for m in mplans], 'point': pts[0], 'W': c.results[base_idx[0]][1][:60]}, limit=4)
+    ridge_kernel_family(V, random.Random(seed * 7919 + 88), tier)
     res = margin_pass('asan', PID, [p['item'] for p in pending], position_noise_m=0.2)
     excused = 0
     for p, (exc, info) in zip(pending, res):
